@@ -339,7 +339,7 @@ def run(ctx, report):
                     continue
                 if r in localnames and isinstance(tgt, ast.Name) and r not in params:
                     shared = [b for b in binds.get(r, []) if b.lineno <= n.lineno and isinstance(b.value, (ast.Name, ast.Attribute)) and root_name(b.value) in glob
-                              and root_name(b.value) not in localnames]
+                              and root_name(b.value) not in localnames and _reaches(b, n, binds.get(r, []), fn)]
                     if shared:
                         bad = True
                         R7.violation(inst, 'shared-table:%s:%s:%s' % (fn.name, u(shared[-1].value), what), '%s binds the local %s to the shared table %s and mutates it in place (%s): every '
@@ -350,6 +350,43 @@ def run(ctx, report):
                     R7.violation(inst, 'shared-table:%s:%s:%s' % (fn.name, u(tgt), what), '%s mutates the module-level object %s in place (%s)' % (fn.name, u(tgt), what), where(m, n))
             if not bad:
                 R7.ok(inst, nontrivial=(len(R7.nontrivial) < 400))
+
+def _chain(node, fn):
+    """[(holder statement, field, index)] from the function body down to the statement containing `node`."""
+    out = []
+    cur = node
+    while cur is not None and cur is not fn:
+        p = parent(cur)
+        if p is None:
+            break
+        for fld in ('body', 'orelse', 'finalbody', 'handlers'):
+            seq = getattr(p, fld, None)
+            if isinstance(seq, list) and any(cur is x for x in seq):
+                out.append((p, fld, [i for i, x in enumerate(seq) if x is cur][0]))
+        cur = p
+    out.reverse()
+    return out
+
+
+def _reaches(b, m, all_binds, fn):
+    """Does the binding b of a local reach the use m?  Not when they sit in different arms of one if/try, nor when a later binding on the path to m
+    (same block as an ancestor of m, before it) rebinds the name unconditionally."""
+    cb, cm = _chain(b, fn), _chain(m, fn)
+    for (pb, fb, _), (pm, fm, _) in zip(cb, cm):
+        if pb is not pm:
+            break
+        if fb != fm and isinstance(pb, (ast.If, ast.Try)):
+            return False
+    for k in all_binds:
+        if k is b or not (b.lineno < k.lineno <= m.lineno):
+            continue
+        ck = _chain(k, fn)
+        # k kills b when k is a direct statement of a block that holds (an ancestor of) m, before that ancestor
+        if len(ck) <= len(cm) and all(ck[i][0] is cm[i][0] and ck[i][1] == cm[i][1] for i in range(len(ck))) \
+                and all(ck[i][2] == cm[i][2] for i in range(len(ck) - 1)) and ck[-1][2] < cm[len(ck) - 1][2]:
+            return False
+    return True
+
 
 MUTANTS = [
     ('popad-shared-table', 'miasmx/arch/ia32_sem.py', "        regs = [eax, ecx, edx, ebx, esp, ebp, esi, edi]\n    regs.reverse()", "        regs = ia32_rexpr.reg_list32\n    regs.reverse()", 'C12.D7'),
